@@ -3,7 +3,7 @@
    With sparse_sound this makes the string-level theorems exactly as general as the tree-level ones,
    and shows the concrete syntax is unambiguous. *)
 From Coq Require Import List Arith NArith Bool Lia.
-From Muscle Require Import Pat.Ere Pat.Simple Pat.SimpleParse.
+From Muscle Require Import Pat.Ere Pat.Simple Pat.SimpleParse Pat.SimpleParseProofs.
 Import ListNotations.
 Local Open Scope N_scope.
 
@@ -180,4 +180,9 @@ Proof.
   unfold sparse. destruct parse_complete as (_ & _ & P).
   pose proof (P al Hwf (S (length (print_alt al))) [] I (Nat.lt_succ_diag_r _)) as E.
   rewrite app_nil_r in E. rewrite E, Hh. reflexivity.
+Qed.
+
+Theorem sparse_exact : forall p al, sparse p = Some al <-> (p = print_alt al /\ wf_pattern al = true).
+Proof.
+  intros p al. split; [apply sparse_sound|]. intros [Hp Hw]. subst p. apply sparse_complete; exact Hw.
 Qed.
